@@ -3771,11 +3771,6 @@ for _n, _sp in FILES:
     if _n == "EvalFns.lean" and "Heathcliff.Model.Scheme" not in _sp["imports"]: _sp["imports"] = _sp["imports"] + ["Heathcliff.Model.Scheme"]
 # ------------------------------------------------------------------------------------------------------------------------------------
 
-if __name__ == "__main__":
-    res = gen_all(sys.argv[1])
-    print(res[sys.argv[2] if len(sys.argv) > 2 else "WordFns.lean"])
-
-
 # ------------------------------------------------------------------------------------------------------------------------------------
 # Phase 4j (worker R): the seeded generator and the samplers (tools/rs2lean_rng.py, "rng mode"; notes/work7-R.md)
 RG = "src/util/random_generator.rs"; RW = "src/util/rlwe.rs"
@@ -3794,3 +3789,8 @@ FILES += [
         {"file": "src/text.rs", "fn": "expand_seed", "impl": "ExpandSeed for Ciphertext", "skeleton": "expand_seed", "model": "Encrypt.expandSeed (skeleton over the flat buffer)"},
     ]}),
 ]
+
+
+if __name__ == "__main__":
+    res = gen_all(sys.argv[1])
+    print(res[sys.argv[2] if len(sys.argv) > 2 else "WordFns.lean"])
